@@ -196,14 +196,39 @@ func Association[K comparable, V any](arguments ...any) col.AssociationLike[K, V
 	var notation = CDCN()
 	var key K
 	var value V
+	var hasKey bool
+	var hasValue bool
 
 	// Process the actual arguments.
-	for _, argument := range arguments {
+	for index, argument := range arguments {
+		// The key precedes the value, so when their types are identical or
+		// overlap (e.g. "any") the position of the argument decides.
+		if !hasKey && index == 0 && len(arguments) == 3 {
+			if actual, ok := argument.(col.NotationLike); ok {
+				notation = actual
+				continue
+			}
+		}
+		if hasKey && !hasValue {
+			if actual, ok := argument.(V); ok {
+				value = actual
+				hasValue = true
+				continue
+			}
+		}
+		if hasKey && hasValue {
+			if actual, ok := argument.(col.NotationLike); ok {
+				notation = actual
+				continue
+			}
+		}
 		switch actual := argument.(type) {
 		case K:
 			key = actual
+			hasKey = true
 		case V:
 			value = actual
+			hasValue = true
 		default:
 			var notationType = ref.TypeOf((*col.NotationLike)(nil)).Elem()
 			var reflectedType = ref.TypeOf(argument)
